@@ -166,3 +166,152 @@ Proof.
   split; [|vm_compute; reflexivity].
   unfold wf_hist, ex_reset. repeat (apply Forall_cons || apply Forall_nil); cbn [snd wf_req]; unfold in_i64, two63; lia.
 Qed.
+
+(* ================================================================================================ *)
+(* state-free reading: arrivals, lastCommit and topic keys of a group as a recursion over the history alone *)
+(* ================================================================================================ *)
+
+(* reaches_ring without the state (StorageProofs.reaches_ring_history) *)
+Definition reach_h (cf : config) (cls : list Z) (h : hist) (now c g t p ts : Z) : option Z :=
+  if in_cls c cls && negb (too_old cf now ts) && cf_accept cf g && (0 <=? p) && broker_known h c t p
+  then last_broker h c t p else None.
+
+Definition ceff_h (cf : config) (cls : list Z) (h : hist) (A : Z -> Z -> list (commit * Z)) (now c g t p off order ts : Z)
+  : option bool :=
+  match reach_h cf cls h now c g t p ts with
+  | Some boff => Some (snd (ring_step (cf_min_distance cf) (ring_run (cf_min_distance cf) (cf_intervals cf) (A t p))
+                                      (mkCommit off order ts) (commit_lag boff off)))
+  | None => None
+  end.
+
+Definition oeff_h (cf : config) (cls : list Z) (h : hist) (c g t p : Z) : option bool :=
+  if in_cls c cls && cf_accept cf g then Some ((0 <=? p) && broker_known h c t p) else None.
+
+Definition resets_h (cf : config) (now : Z) (G : option (Z * list Z)) (c g t : Z) (r : req) : bool :=
+  match r with
+  | DeleteTopic c' t' => (c' =? c) && (t' =? t)
+  | DeleteGroup c' g' t' => (c' =? c) && (g' =? g) && ((t' =? 0) || (t =? t'))
+  | FetchConsumer c' g' => (c' =? c) && (g' =? g) && match G with Some (L, _) => expired cf now L | None => false end
+  | _ => false
+  end.
+
+Definition next_arrivals_h (cf : config) (cls : list Z) (h : hist) (now c g t p : Z) (r : req) (G : option (Z * list Z))
+           (acc : list (commit * Z)) : list (commit * Z) :=
+  match is_commit_for c g t p r with
+  | Some (off, order, ts) =>
+      match reach_h cf cls h now c g t p ts with
+      | Some boff => acc ++ [(mkCommit off order ts, commit_lag boff off)]
+      | None => acc
+      end
+  | None => if resets_h cf now G c g t r then [] else acc
+  end.
+
+(* recursion over the reversed history (newest request first): for the group (c,g), its (lastCommit, topic keys)
+   (None = the group does not exist) and, per topic and partition, the commits that make up the ring *)
+Fixpoint hsim (cf : config) (cls : list Z) (c g : Z) (rh : hist)
+  : option (Z * list Z) * (Z -> Z -> list (commit * Z)) :=
+  match rh with
+  | [] => (None, fun _ _ => [])
+  | (now, r) :: rest =>
+      let GA := hsim cf cls c g rest in
+      let h := rev rest in
+      (ginfo_next cf now c g (ceff_h cf cls h (snd GA) now c g) (oeff_h cf cls h c g) r (fst GA),
+       fun t p => next_arrivals_h cf cls h now c g t p r (fst GA) (snd GA t p))
+  end.
+
+Definition h_ginfo (cf : config) (cls : list Z) (h : hist) (c g : Z) : option (Z * list Z) := fst (hsim cf cls c g (rev h)).
+Definition h_arrivals (cf : config) (cls : list Z) (h : hist) (c g t p : Z) : list (commit * Z) :=
+  snd (hsim cf cls c g (rev h)) t p.
+
+Lemma ginfo_next_ext cf now c g ceff ceff' oeff oeff' r G :
+  (forall t p off order ts, ceff t p off order ts = ceff' t p off order ts) ->
+  (forall t p, oeff t p = oeff' t p) ->
+  ginfo_next cf now c g ceff oeff r G = ginfo_next cf now c g ceff' oeff' r G.
+Proof. intros H1 H2. destruct r; cbn [ginfo_next]; rewrite ?H1, ?H2; reflexivity. Qed.
+
+Lemma oeff_history cf cls h st reps c g t p :
+  run cf (init_state cls) h = Some (st, reps) -> oeff_st cf st c g t p = oeff_h cf cls h c g t p.
+Proof.
+  intros Hrun. destruct (broker_known_iff_history cf cls h st reps c t p Hrun) as [Hiff _].
+  destruct (run_bk_inv cf cls h st reps Hrun) as [Hcl _]. unfold oeff_st, oeff_h.
+  destruct (get st c) as [cl|] eqn:Hg.
+  - assert (Hin : in_cls c cls = true) by (apply in_cls_spec, Hcl; congruence). rewrite Hin. cbn [andb].
+    destruct (cf_accept cf g); [|reflexivity]. f_equal.
+    destruct (snd (get_broker_offset cl t p) =? 0) eqn:E0; cbn [negb].
+    + destruct ((0 <=? p) && broker_known h c t p) eqn:Ec; [|reflexivity]. exfalso.
+      apply andb_true_iff in Ec. destruct Ec as [Ep Ek].
+      destruct (proj2 Hiff) as (cl' & Hg' & Hs); [split; [apply in_cls_spec; exact Hin|split; [lia|exact Ek]]|].
+      assert (cl' = cl) by congruence. subst cl'. lia.
+    + assert (Hs : snd (get_broker_offset cl t p) <> 0) by lia.
+      destruct (proj1 Hiff (ex_intro _ cl (conj eq_refl Hs))) as (_ & Hp & Hk).
+      assert (Ep : (0 <=? p) = true) by lia. rewrite Ep, Hk. reflexivity.
+  - assert (Hin : in_cls c cls = false).
+    { destruct (in_cls c cls) eqn:E; [|reflexivity]. apply in_cls_spec, Hcl in E. congruence. }
+    rewrite Hin. reflexivity.
+Qed.
+
+Lemma resets_history cf now st c g t r : resets cf now st c g t r = resets_h cf now (ginfo st c g) c g t r.
+Proof. destruct r; cbn [resets resets_h]; try reflexivity. rewrite group_expired_ginfo. reflexivity. Qed.
+
+(* The state-free recursion computes exactly what storage holds: for every well-formed history, the group's
+   (lastCommit, topic keys) and, for every topic and partition >= 0, the arrival list of StorageWindows.arrivals
+   (hence, by storage_ring_provenance, the ring itself: ring_of = ring_run (h_arrivals ...)). *)
+Theorem hist_sim_correct cf cls h st reps c g :
+  (1 <= cf_intervals cf)%nat -> wf_hist h ->
+  run cf (init_state cls) h = Some (st, reps) ->
+  ginfo st c g = h_ginfo cf cls h c g /\
+  forall t p, 0 <= p -> arrivals cf cls h c g t p = h_arrivals cf cls h c g t p.
+Proof.
+  intros HN Hwf. revert st reps. unfold h_ginfo, h_arrivals.
+  induction h as [|[now r] h IH] using rev_ind; intros st reps Hrun.
+  - cbn in Hrun. injection Hrun as <- _. cbn. split; [|intros; reflexivity].
+    unfold ginfo. destruct (get (init_state cls) c) as [cl|] eqn:Hc; [|reflexivity].
+    assert (cl = mkCluster [] []).
+    { unfold init_state in Hc. induction cls as [|c0 cls IHc]; cbn in Hc; [discriminate|]. destruct (c0 =? c); [congruence|auto]. }
+    subst cl. reflexivity.
+  - apply wf_hist_snoc in Hwf. destruct Hwf as [Hwf Hr]. cbn [snd] in Hr.
+    rewrite run_snoc in Hrun. destruct (run cf (init_state cls) h) as [[st1 r1]|] eqn:Hrun1; [|discriminate].
+    destruct (step cf now st1 r) as [st2 rep|] eqn:Hstep; [|discriminate]. injection Hrun as <- _.
+    destruct (IH Hwf st1 r1 eq_refl) as [IHg IHa]. clear IH.
+    rewrite rev_app_distr. cbn [rev app hsim]. rewrite rev_involutive. cbn [fst snd].
+    set (GA := hsim cf cls c g (rev h)) in *.
+    split.
+    + rewrite (ginfo_step cf cls h st1 r1 now r st2 rep c g HN Hwf Hr Hrun1 Hstep), IHg.
+      apply ginfo_next_ext; [|intros t p; eapply oeff_history; exact Hrun1].
+      intros t p off order ts. unfold ceff_st, ceff_h.
+      rewrite (reaches_ring_history cf cls h st1 r1 now c g t p ts Hrun1). fold (reach_h cf cls h now c g t p ts).
+      destruct (reach_h cf cls h now c g t p ts) as [boff|] eqn:Ere; [|reflexivity].
+      assert (Hp : 0 <= p).
+      { unfold reach_h in Ere. destruct (0 <=? p) eqn:E; [lia|]. rewrite !andb_false_r in Ere. cbn in Ere. discriminate. }
+      rewrite (storage_ring_provenance cf cls h st1 r1 c g t p HN Hwf Hp Hrun1), (IHa t p Hp). reflexivity.
+    + intros t p Hp. unfold arrivals. rewrite arrivals_from_snoc, Hrun1, Hstep. fold (arrivals cf cls h c g t p).
+      rewrite (IHa t p Hp). unfold next_arrivals, next_arrivals_h.
+      destruct (is_commit_for c g t p r) as [[[off order] ts]|].
+      * rewrite (reaches_ring_history cf cls h st1 r1 now c g t p ts Hrun1). reflexivity.
+      * rewrite resets_history, IHg. reflexivity.
+Qed.
+
+(* corollaries in the shape the composed layer needs *)
+Corollary ring_of_history cf cls h st reps c g t p :
+  (1 <= cf_intervals cf)%nat -> wf_hist h -> 0 <= p ->
+  run cf (init_state cls) h = Some (st, reps) ->
+  ring_of cf st c g t p = ring_run (cf_min_distance cf) (cf_intervals cf) (h_arrivals cf cls h c g t p).
+Proof.
+  intros HN Hwf Hp Hrun. rewrite (storage_ring_provenance cf cls h st reps c g t p HN Hwf Hp Hrun).
+  destruct (hist_sim_correct cf cls h st reps c g HN Hwf Hrun) as [_ Ha]. rewrite (Ha t p Hp). reflexivity.
+Qed.
+
+Corollary group_expired_history cf cls h st reps now c g :
+  (1 <= cf_intervals cf)%nat -> wf_hist h ->
+  run cf (init_state cls) h = Some (st, reps) ->
+  group_expired cf now st c g = match h_ginfo cf cls h c g with Some (L, _) => expired cf now L | None => false end.
+Proof.
+  intros HN Hwf Hrun. rewrite group_expired_ginfo.
+  destruct (hist_sim_correct cf cls h st reps c g HN Hwf Hrun) as [-> _]. reflexivity.
+Qed.
+
+(* non-vacuity: the state-free recursion on the reset example *)
+Lemma ex_h_arrivals_reset :
+  h_arrivals ex_cfg [1] ex_reset 1 1 1 0 = [(mkCommit 60 2 100000, 40)] /\
+  h_ginfo ex_cfg [1] ex_reset 1 1 = Some (100000, [1]).
+Proof. split; vm_compute; reflexivity. Qed.
